@@ -503,16 +503,20 @@ fn check_worker(case: &Case) -> CaseResult {
         dropped: dropped.clone(),
         epoch: out.epoch.clone(),
     };
-    // 1 h interval (only explicit flushes and the final one) in 5 of 8 cases; otherwise the
-    // worker's own periodic flush is live: zero, 100 us or 2 ms
+    // no periodic flush during the case (only explicit flushes and the final one) in 5 of 8
+    // cases - spelled as 1 h, or as "never": Duration::MAX / u64::MAX seconds, which no Instant
+    // can be advanced by; otherwise the worker's own periodic flush is live: zero, 100 us or 2 ms
     let interval = match (case.producers / 4) % 8 {
-        0..=4 => Duration::from_secs(3600),
+        0..=2 => Duration::from_secs(3600),
+        3 => Duration::MAX,
+        4 => Duration::from_secs(u64::MAX),
         5 => Duration::ZERO,
         6 => Duration::from_micros(100),
         _ => Duration::from_millis(2),
     };
     let sink: WorkerSink<ItemEntry, _> = WorkerSink::new(inner, interval);
     let periodic = interval < Duration::from_secs(1);
+    let never = interval > Duration::from_secs(1 << 40);
     let np = (case.producers % 4 + 1) as usize;
     // split the steps into segments at Flush; inside a segment inputs are spread over producers
     let mut all: BTreeMap<(String, u8), Acc> = BTreeMap::new();
@@ -669,6 +673,9 @@ fn check_worker(case: &Case) -> CaseResult {
     }
     vensure!(union.len() == all.len(), "agg:foreign-key", "{} keys emitted, {} merged", union.len(), all.len());
     classes.push("worker");
+    if never {
+        classes.push("worker-flush-interval-never");
+    }
     if periodic {
         classes.push("worker-periodic-flush-live");
     }
@@ -1360,12 +1367,12 @@ pub fn run(ctx: &mut Ctx) {
     ctx.explore(
         SubCfg::new(
             "c10-worker",
-            "the same steps through WorkerSink(KeyedAggregator) with 1-4 producer threads per segment (joined before each flush().await); flush interval 1 h (explicit flushes only) or 0 / 100 us / 2 ms (the worker's periodic flush races the merges; epochs are counted at the inner sink's real flushes). Oracle: when flush().await returns everything merged before it is in emitted aggregates (barrier); one aggregate per key per flush; with one producer and no periodic flush the keep-last field of each aggregate is the last value sent for its key; union over all flushes == all inputs (nothing lost, nothing double counted); after the last handle is dropped the worker emits what it holds and its inner sink is dropped (the thread exits) before 1000 further flush() calls. Non-trivial = >=2 inputs share a key, >=2 flushes, >=2 keys",
+            "the same steps through WorkerSink(KeyedAggregator) with 1-4 producer threads per segment (joined before each flush().await); flush interval 1 h or never (Duration::MAX / u64::MAX s; explicit flushes only) or 0 / 100 us / 2 ms (the worker's periodic flush races the merges; epochs are counted at the inner sink's real flushes). Oracle: when flush().await returns everything merged before it is in emitted aggregates (barrier); one aggregate per key per flush; with one producer and no periodic flush the keep-last field of each aggregate is the last value sent for its key; union over all flushes == all inputs (nothing lost, nothing double counted); after the last handle is dropped the worker emits what it holds and its inner sink is dropped (the thread exits) before 1000 further flush() calls. Non-trivial = >=2 inputs share a key, >=2 flushes, >=2 keys",
             if q { 1_500 } else { 30_000 },
         )
         .threads(ctx.tier.pick(4, 8))
         .shrink_iters(100)
-        .mandatory(&["worker", "multi-producer", "worker-periodic-flush-live", "worker-keep-last-checked"]),
+        .mandatory(&["worker", "multi-producer", "worker-periodic-flush-live", "worker-keep-last-checked", "worker-flush-interval-never"]),
         || {
             (prop::collection::vec(arb_step(), 0..50), any::<u8>()).prop_map(|(steps, producers)| Case {
                 kind: SinkKind::Worker,
